@@ -44,9 +44,7 @@ func (s *JumpMark) Process(ctx context.Context, man gdbi.Manager, in gdbi.InPipe
 				}
 				// jumps that are ahead of a mark can close before the mark
 				// gets the close
-				for _, i := range closeList {
-					s.inputs = append(s.inputs[:i], s.inputs[i+1:]...)
-				}
+				s.inputs = removeInputs(s.inputs, closeList)
 			}
 			if !jumperFound {
 				select {
@@ -103,9 +101,7 @@ func (s *JumpMark) Process(ctx context.Context, man gdbi.Manager, in gdbi.InPipe
 					time.Sleep(time.Microsecond)
 				}
 			}
-			for _, i := range closeList {
-				s.inputs = append(s.inputs[:i], s.inputs[i+1:]...)
-			}
+			s.inputs = removeInputs(s.inputs, closeList)
 
 			if !jumperFound {
 				if (!signalActive && !signalOutdated) || (signalOutdated && returnCount == len(s.inputs)) {
@@ -188,4 +184,15 @@ func (s *Jump) Process(ctx context.Context, man gdbi.Manager, in gdbi.InPipe, ou
 		fmt.Printf("Closing jump, messages: %d\n", mCount)
 	}()
 	return ctx
+}
+
+// removeInputs drops the inputs at the (ascending) indices in closeList. Removing them one by
+// one from the front shifted the later indices: with two jumps closed in the same round the
+// wrong input was dropped or the slice bounds were exceeded.
+func removeInputs(inputs []chan gdbi.Traveler, closeList []int) []chan gdbi.Traveler {
+	for k := len(closeList) - 1; k >= 0; k-- {
+		i := closeList[k]
+		inputs = append(inputs[:i], inputs[i+1:]...)
+	}
+	return inputs
 }
